@@ -167,10 +167,35 @@ func (r *rec) emit(e *Ev) {
 	r.n++
 }
 
+// positions with an en-passant target that can be captured, castling rights and non-zero counters
+var dirtyFens = []string{
+	"rnbqkbnr/ppp1pppp/8/8/3pP3/8/PPPP1PPP/RNBQKBNR b KQkq e3 7 3",
+	"rnbqkbnr/pppp1ppp/8/3Pp3/8/8/PPP1PPPP/RNBQKBNR w KQkq e6 3 3",
+	"r3k2r/8/8/2pP4/8/8/8/R3K2R w KQkq c6 11 20",
+	"r3k2r/8/8/8/5Pp1/8/8/R3K2R b Kq f3 40 60",
+}
+
 func (r *rec) load(fen string) *board.Board {
 	b, err := board.FromFEN(fen)
 	if err != nil {
 		panic(fmt.Sprintf("corpus fen rejected: %q: %v", fen, err))
+	}
+	if fen != StartPosFEN && r.rng.Intn(4) == 0 {
+		// set up the way the tuner and the extractor do: parsed into a Board value that held another game before
+		// (en-passant target, castling rights, counters, hash history), then ResetHash
+		nb := new(board.Board)
+		if err := board.ParseFEN(nb, []byte(dirtyFens[r.rng.Intn(len(dirtyFens))])); err == nil {
+			nb.ResetHash()
+			for i := r.rng.Intn(3); i > 0; i-- {
+				if lm := proj.Playable(nb, r.ms); len(lm) > 0 {
+					nb.MakeMove(lm[r.rng.Intn(len(lm))])
+				}
+			}
+			if err := board.ParseFEN(nb, []byte(fen)); err == nil {
+				nb.ResetHash()
+				b = nb
+			}
+		}
 	}
 	if fen == StartPosFEN {
 		// the start position as the driver creates it, with another start-position board alive and in use
@@ -274,7 +299,10 @@ func (r *rec) source(corpus []string, rawEp bool) string {
 		if _, err := board.FromFEN(fen); err == nil {
 			return fen
 		}
-		if bd, stm, cr, ep, hm, fm, ok := gen.ParseCanonFEN(fen); ok && !r.plain {
+		if bd, stm, cr, ep, hm, fm, ok := gen.ParseCanonFEN(fen); ok {
+			if r.plain {
+				return fen // the reader of the list judges the rejection
+			}
 			p := proj.Pos{Bd: bd, Stm: stm, Cr: cr, Ep: ep, Hm: hm, Fm: fm}
 			r.t++
 			r.emit(&Ev{Ev: "fenRejected", Fen: fen, Pos: &p})
@@ -288,6 +316,9 @@ func (r *rec) source1(corpus []string, rawEp bool) string {
 	}
 	if r.rng.Intn(7) == 0 {
 		return gen.CastleStress(r.rng)
+	}
+	if r.rng.Intn(40) == 0 {
+		return gen.MaxLenFEN(r.rng)
 	}
 	pr := profiles[r.rng.Intn(len(profiles))]
 	pr.RawEp = rawEp
@@ -1111,6 +1142,15 @@ func (r *rec) enum(x int, shard, nshards, every int) {
 func (r *rec) list(corpus []string) {
 	r.max = 1 << 30
 	for _, fen := range corpus {
+		if _, err := board.FromFEN(fen); err != nil {
+			// a canonical FEN of a valid position that the engine refuses is an observation, not a broken corpus
+			if bd, stm, cr, ep, hm, fm, ok := gen.ParseCanonFEN(fen); ok {
+				p := proj.Pos{Bd: bd, Stm: stm, Cr: cr, Ep: ep, Hm: hm, Fm: fm}
+				r.t++
+				r.emit(&Ev{Ev: "fenRejected", Fen: fen, Pos: &p})
+				continue
+			}
+		}
 		r.load(fen)
 	}
 }
@@ -1240,6 +1280,8 @@ func main() {
 			}
 			b, err := board.FromFEN(src)
 			if err != nil {
+				fmt.Fprintln(w, src)
+				i++
 				continue
 			}
 			if push != 0 && contains(proj.Playable(b, r.ms), push) {
